@@ -685,6 +685,10 @@ theorem dammitE_eq {V : Type} (code : Code) (P : Prims V) (encs : List Nat) (hq 
     simp only
     split <;> (rename_i h; simp [h])
 
+theorem silent_within (r : Recorded) : Prims.silent.Within r := by
+  refine ⟨?_, ?_, ?_, ?_, ?_, ?_, ?_, ?_, ?_, ?_, ?_, ?_, ?_, ?_, ?_, ?_, ?_, ?_⟩ <;>
+    simp [Prims.silent, Prims.quiet, raisesOnly, raisesOnlyO]
+
 /-- the loop with attempts that end accepted, rejected or in `ParserRejectedMarkup` -/
 theorem retry_outcome_prm {V : Type} (m : Machine V)
     (hf : ∀ o, (m.feed o).2 = .accept ∨ (m.feed o).2 = .reject ∨ (m.feed o).2 = .raise .parserRejectedMarkup)
